@@ -596,8 +596,83 @@ theorem step_expr (hS : SigClosed S) (hP : okProg S P true = true) {n : Nat} (ih
           obtain ⟨Ψ2, hx2, hw2, hvs⟩ := ih.list hargsok herr.1.2 (hρ.mono hx1) hK hw1 h2
           obtain ⟨Ψ3, hx3, hw3, hv3⟩ := ih.appv (hfv.mono hx2) hvs hw2 hev
           exact ⟨Ψ3, (hx1.trans hx2).trans hx3, hw3, hv3⟩
-  | toDyn tr ft t e0 => simp [okE] at hok
-  | dynCall tr m t recv args => simp [okE] at hok
+  | toDyn tr ft t e0 =>
+    simp only [okE, Bool.and_eq_true, Bool.true_and] at hok
+    obtain ⟨he0, hkey⟩ := hok
+    simp only [errs, List.append_eq_nil_iff, checkEq_nil] at herr
+    rw [eval_toDyn] at hev
+    cases h1 : eval n P ρ w e0 with
+    | fail f w1 => rw [h1] at hev; simp at hev
+    | ok ve w1 =>
+      rw [h1] at hev; simp only [Res.andThen_ok] at hev
+      obtain ⟨Ψ1, hx1, hw1, hve⟩ := ih.expr he0 herr.1.1 hρ hK hw h1
+      obtain ⟨rfl, rfl⟩ := res_ok_inj hev
+      rw [herr.1.2, substTy_concrete θ (keyable_concrete hkey)] at hve
+      refine ⟨Ψ1, hx1, hw1, ?_⟩
+      simp only [getTy, herr.2, substTy]
+      exact .dyn hkey hve rfl
+  | dynCall tr m t recv args =>
+    simp only [okE, Bool.and_eq_true, Bool.true_and] at hok
+    obtain ⟨⟨⟨hrecv, hargsok⟩, himp⟩, hobj⟩ := hok
+    simp only [errs, List.append_eq_nil_iff, checkEq_nil] at herr
+    rw [eval_dynCall] at hev
+    cases h1 : eval n P ρ w recv with
+    | fail f w1 => rw [h1] at hev; simp at hev
+    | ok rv w1 =>
+      rw [h1] at hev; simp only [Res.andThen_ok] at hev
+      obtain ⟨Ψ1, hx1, hw1, hrv⟩ := ih.expr hrecv herr.1.1.1 hρ hK hw h1
+      rw [herr.1.2] at hrv
+      simp only [substTy] at hrv
+      obtain ⟨key, v0, τ0, rfl, hk0, hv0, hkey0⟩ := VT_dyn hrv
+      simp only [] at hev
+      cases h2 : evalList n P ρ w1 args with
+      | fail f w2 => rw [h2] at hev; simp at hev
+      | ok vs w2 =>
+        rw [h2] at hev; simp only [Res.andThen_ok] at hev
+        obtain ⟨Ψ2, hx2, hw2, hvs⟩ := ih.list hargsok herr.1.1.2 (hρ.mono hx1) hK hw1 h2
+        have hv0' := hv0.mono hx2
+        unfold implsOk at himp
+        simp only [Bool.and_eq_true, List.all_eq_true] at himp
+        obtain ⟨hnames, hrows⟩ := himp
+        cases hrow : P.impls.find? (fun i => i.1 == tr && i.2.1 == key && i.2.2.1 == m) with
+        | none => rw [hrow] at hev; cases hev
+        | some row =>
+          simp only [hrow] at hev
+          have hmem := List.mem_of_find?_eq_some hrow
+          have hp := List.find?_some hrow
+          simp only [Bool.and_eq_true, beq_iff_eq] at hp
+          have hr := hrows row hmem
+          unfold rowOk at hr
+          cases hg : P.findFn row.2.2.2 with
+          | none => simp [hg] at hr
+          | some g =>
+            simp only [hg] at hr
+            cases hps : g.params with
+            | nil => simp [hps] at hr
+            | cons p rest =>
+              simp only [hps, Bool.and_eq_true, beq_iff_eq] at hr
+              obtain ⟨⟨hkeyable, hkey⟩, hsig⟩ := hr
+              have hconc0 := keyable_concrete hk0
+              have hvk : valKey v0 = tyKey τ0 := valKey_of_VT hconc0 hv0'
+              have hτ : τ0 = p.2 := key_determines hnames hv0' hkeyable (by rw [hkey, hp.1.2, ← hkey0, hvk])
+              obtain ⟨mps, mr, hmt⟩ := methodTy_objSafe hobj
+              have h3 := herr.2
+              rw [hmt] at h3
+              simp only [checkEq_nil] at h3
+              injection h3 with hps3 hr3
+              injection hps3 with _ hps3
+              rw [hp.1.1, hp.2, hmt] at hsig
+              simp only [] at hsig
+              have hfn := tyEq hsig
+              unfold fnTy at hfn
+              injection hfn with hps' hret
+              have key2 := ih.app (θ := θ) hg (by
+                rw [← hps']; simp only [substTys]
+                rw [← hτ, substTy_concrete θ hconc0, hps3]
+                exact .cons hv0' hvs) hw2 hev
+              rw [← hret, hr3] at key2
+              obtain ⟨Ψ3, hx3, hw3, hv3⟩ := key2
+              exact ⟨Ψ3, (hx1.trans hx2).trans hx3, hw3, by simpa [getTy] using hv3⟩
   | traitCall tr m t recv args =>
     simp only [okE, Bool.and_eq_true, Bool.or_eq_true] at hok
     obtain ⟨⟨hrecv, hargsok⟩, hdisp⟩ := hok
